@@ -3,6 +3,7 @@ pub mod c02;
 pub mod c03;
 pub mod c05;
 pub mod c07;
+pub mod c08;
 pub mod c09;
 pub mod c10;
 pub mod c15;
@@ -58,6 +59,7 @@ pub fn replay_file(path: &std::path::Path) -> i32 {
         "c19-trace" => verdict("C19", path, c19::replay(case)),
         "c09-schedule" => verdict("C09", path, c09::replay(case)),
         "c10-schedule" => verdict("C10", path, c10::replay(case)),
+        "c08-sequence" => verdict("C08", path, c08::replay(case)),
         "c18-map" => verdict("C18", path, c18::replay(case)),
         "c05-case" => verdict("C05", path, c05::replay(case)),
         k if k.starts_with("c03-") => match c03::replay(case) {
